@@ -43,8 +43,10 @@ func systemLevelTimeouts(r *Run) {
 	ms := f.Get(memCfg)
 	must(ms.SetTokenResponse(ctx, "sys1", tok))
 	must(ms.SetTokenResponse(ctx, "sys2", tok))
+	t0 := time.Now()
 	time.Sleep(400 * time.Millisecond)
-	if got, _ := ms.GetTokenResponse(ctx, "sys1"); got == nil {
+	// (judged only when the machine really let us ask inside the limit: a stalled process proves nothing)
+	if got, _ := ms.GetTokenResponse(ctx, "sys1"); got == nil && time.Since(t0) < 900*time.Millisecond {
 		r.Violate("memory store built by the factory dropped a session inside both limits (0.4s of idle 1s / absolute 2s)", map[string]any{"store": "memory via factory", "abs_s": 2, "idle_s": 1, "waited_ms": 400})
 	}
 	time.Sleep(1200 * time.Millisecond)
@@ -56,11 +58,17 @@ func systemLevelTimeouts(r *Run) {
 	must(ms.SetTokenResponse(ctx, "sys3", tok))
 	start := time.Now()
 	alive := true
+	last, maxGap := start, time.Duration(0)
 	for time.Since(start) < 2400*time.Millisecond && alive {
 		time.Sleep(300 * time.Millisecond)
+		if g := time.Since(last); g > maxGap {
+			maxGap = g
+		}
 		got, _ := ms.GetTokenResponse(ctx, "sys3")
+		last = time.Now()
 		alive = got != nil
-		if !alive && time.Since(start) < 1900*time.Millisecond {
+		// (a gap of 0.9 s or more between two touches - a stalled process - may legitimately let the idle limit elapse)
+		if !alive && time.Since(start) < 1900*time.Millisecond && maxGap < 900*time.Millisecond {
 			r.Violate("memory store built by the factory dropped an active session before absolute_session_timeout=2s", map[string]any{"after": time.Since(start).String()})
 		}
 	}
